@@ -180,6 +180,14 @@ fn text_rewrites(src: &str, toks: &[RTok]) -> Vec<TextRewrite> {
             if s[end - 1] == '\n' {
                 out.push(TextRewrite { kind: "comment-line-between", text: splice(&s, end, end, "@@ remark\n"), gated: true });
             }
+            // blanks on the empty line of a blank-line separator (the run still holds its two line breaks)
+            if t.ty == T::Subexpression {
+                if let Some(first_nl) = (t.at..end).find(|i| s[*i] == '\n') {
+                    for (k, w) in [("blank-line-gets-space", " "), ("blank-line-gets-tab", "\t"), ("blank-line-gets-blanks", " \t ")] {
+                        out.push(TextRewrite { kind: k, text: splice(&s, first_nl + 1, first_nl + 1, w), gated: false });
+                    }
+                }
+            }
         } else {
             // between two adjacent tokens with nothing in between
             if i + 1 < toks.len() && !matches!(toks[i + 1].ty, T::Whitespace | T::Subexpression) && !matches!(t.ty, T::LineAnnotation) {
@@ -608,7 +616,7 @@ pub fn run(ctx: &Ctx) -> (Acc, String, bool) {
         }
     });
     let rule = format!(
-        "every core-language AST of <= {} nodes ({} programs) and {} random programs (depth <= 5); on each: every single application, at every position, of: widen a blank run with space / tab / several, blank to tab, annotation in a blank run, comment line in a blank run, remove a blank run, insert a blank / an annotation between adjacent tokens, trailing blanks before a line break and at the end, comment line after a line break and at the start (text rewrites admitted only when the reference lexer sees the same significant tokens and, for the gated ones, the reference parser the same tree); parentheses around every operand; an effect-free side-effect block added after every value or group; effect-free blocks dropped; plus random combinations of 2..7 rewrites. Parse tree (modulo trivia / added groups / added blocks), final value on both stores and host resolve sequence are compared with the unrewritten program's.",
+        "every core-language AST of <= {} nodes ({} programs) and {} random programs (depth <= 5); on each: every single application, at every position, of: widen a blank run with space / tab / several, blank to tab, annotation in a blank run, comment line in a blank run, remove a blank run, insert a blank / an annotation between adjacent tokens, trailing blanks before a line break and at the end, blanks on the empty line of a blank-line separator, comment line after a line break and at the start (text rewrites admitted only when the reference lexer sees the same significant tokens and, for the gated ones, the reference parser the same tree); parentheses around every operand; an effect-free side-effect block added after every value or group; effect-free blocks dropped; plus random combinations of 2..7 rewrites. Parse tree (modulo trivia / added groups / added blocks), final value on both stores and host resolve sequence are compared with the unrewritten program's.",
         k, small_total, random_total
     );
     (acc, rule, false)
@@ -616,6 +624,6 @@ pub fn run(ctx: &Ctx) -> (Acc, String, bool) {
 
 pub const ASSUMPTIONS: &[&str] = &[
     "where blanks may be added or removed is decided by the reference lexer (same significant tokens) and the reference precedence parser (same tree); programs with side-effect blocks have no reference tree and only get the rewrites that need no such confirmation (widening blanks, annotation inside an existing blank run, trailing blanks) and the structural ones",
-    "a side-effect body is effect-free when it contains no identifier, apply, nested expression or reapply; a line holding only blanks is not given further trailing blanks",
+    "a side-effect body is effect-free when it is built from literals and `$` under total operators only (nothing the host could see, nothing that could fail)",
     "the unrewritten program is the baseline: programs the pipeline does not accept as printed are C01's business and skipped here",
 ];
